@@ -1,4 +1,5 @@
 import SaModel.Lemmas.C16Run
+import SaModel.Lemmas.C01MapOps
 import SaModel.Lemmas.C16FromType
 import SaModel.Lemmas.C16Depth
 import SaModel.Lemmas.C16Time
@@ -103,6 +104,30 @@ theorem push_no_panic (ext : Ext) (he : ExtNP ext) (b : B) (hb : NPInv b) (x : S
     push ext b x ≠ panic site :=
   Lemmas.C16.ne_panic_of_isPanic (Lemmas.C16.push_np ext he x b hb) site
 
+/-- **A raw key/value call stream that does not alternate, into a Map builder, is an ERROR** (two keys in a row, a
+value without a key, a map ending with a key pending): not a panic (`push_no_panic`) and not accepted
+(`Build.push_map_raw_ok_alternating`; repo fix bcc3416).  Before the fix such a stream was accepted, `to_marrow`
+returned a Map array with keys and values of different lengths and `to_arrow2` unwound inside marrow's conversion
+(finding C16-map-key-value-alternation, found by the thorough tier of C19). -/
+theorem map_non_alternating_is_error (ext : Ext) (he : ExtNP ext) (p : String) (mm : MapMeta) (v : Validity)
+    (offs : List Int) (ks vs : B) (hb : NPInv (.map p mm v offs ks vs)) (ops : SMapOps)
+    (hmal : SaModel.Spec.isAlternating ops = false) :
+    (push ext (.map p mm v offs ks vs) (.mapRaw ops)).isErr = true := by
+  cases h : push ext (.map p mm v offs ks vs) (.mapRaw ops) with
+  | ok b' => rw [push_map_raw_ok_alternating h] at hmal; cases hmal
+  | error e =>
+    cases e with
+    | err m => rfl
+    | errCtx m a => rfl
+    | panic site => exact absurd h (push_no_panic ext he _ hb _ site)
+
+/-- non-vacuity: the replay case of the finding in small — `Map<LargeUtf8, Utf8?>`, stream `[key "😀", key ""]` -/
+example : (push {} (.map "$.a" ⟨"entries", false, ⟨"key", false, []⟩, ⟨"value", true, []⟩⟩ none [0]
+      (.bytes "$.a.entries.key" .largeUtf8 none [0] []) (.bytes "$.a.entries.value" .utf8 (some []) [0] []))
+    (.mapRaw (.key (.str "😀") (.key (.str "") .nil)))) =
+  .error (.errCtx "Invalid map: a key was serialized before the value of the previous key"
+    [("data_type", "Map(..)"), ("field", "$.a")]) := by decide +kernel
+
 /-- the invariant is needed: with one `current_offset` counter missing the union builder indexes out of range -/
 theorem push_without_inv_panics :
     (push {} (.union "$" (.cons (.null "$.a" 0) ⟨"a", true, []⟩ .nil) [] [] []) (.unitVariant "E" 0 "a")).isPanic = true := by
@@ -111,6 +136,12 @@ theorem push_without_inv_panics :
 /-- the default external functions (everything is refused) satisfy `ExtNP` -/
 theorem extDefault_np : ExtNP {} :=
   ⟨fun _ _ => rfl, fun _ _ => rfl, fun _ _ _ => rfl, fun _ _ => rfl, fun _ _ _ _ _ => rfl, fun _ _ _ _ => rfl⟩
+
+/-- the hypotheses of `map_non_alternating_is_error` are met by that instance (a value without a key, here) -/
+example : (push {} (.map "$.a" ⟨"entries", false, ⟨"key", false, []⟩, ⟨"value", true, []⟩⟩ none [0]
+      (.bytes "$.a.entries.key" .largeUtf8 none [0] []) (.bytes "$.a.entries.value" .utf8 (some []) [0] []))
+    (.mapRaw (.value (.str "x") .nil))).isErr = true :=
+  map_non_alternating_is_error {} extDefault_np _ _ _ _ _ _ (by simp [NPInv]) _ (by decide)
 
 def codecUnit : SaModel.TimeUnit → SaModel.Codec.TimeUnit
   | .second => .second | .millisecond => .millisecond | .microsecond => .microsecond | .nanosecond => .nanosecond
